@@ -57,6 +57,9 @@ Clauses(e) ==
        \o P!PropClauses(c, ver, lib, c.cpy_lines, e.insp, lib.removal)
        \o <<
         \* ---------------- binding of Decode.tla to the code
+        \* a decode that raises delivers no instruction sequence at all: wherever the reference model decodes,
+        \* the library must (every compiled code object; the synthetic streams the model itself refuses are exempt)
+        <<"P02.decodes", (m.exc = "") => ok>>,
         <<"M.exc", (m.exc = "") = ok>>,
         <<"M.exc_type", (m.exc # "" /\ ~ok) => m.exc = lib.exc_type>>,
         <<"M.header", (ok /\ m.exc = "") =>
@@ -72,7 +75,7 @@ Clauses(e) ==
 \* (wk/decode.direct_event); they are only named here
 Direct(e) ==
     LET ok == e.exc = "" IN
-    << <<"P02.count", ok => e.count>>, <<"P02.names", (ok /\ e.count) => e.names>>,
+    << <<"P02.decodes", ok>>, <<"P02.count", ok => e.count>>, <<"P02.names", (ok /\ e.count) => e.names>>,
        <<"P02.operands", (ok /\ e.count) => e.operands>>, <<"P02.jumps", (ok /\ e.count) => e.jumps>>,
        <<"P02.lines", (ok /\ e.count) => e.lines>>, <<"P13.partition", ok => e.partition>>,
        <<"P13.targets", (ok /\ e.count) => e.targets>>, <<"P13.jump_range", ok => e.jump_range>> >>
